@@ -18,7 +18,7 @@ EXPLANATION = (
     "population of the acquired sets up to 3 per key; z3 decides that it is positive exactly when neither limit is "
     "exhausted. (2) Schedules: the solver chooses a script of k steps over the currently enabled operations {start a "
     "connect() task for host A/B, let a pending connection attempt succeed / fail, release or close a held connection "
-    "(with or without letting the loop run before the next step), cancel a task, let 5 s pass while some connect() runs under ClientTimeout(connect=3), close the connector}; the real "
+    "(with or without letting the loop run before the next step), cancel a task, let 5 s pass while some connect() runs under ClientTimeout(connect=3), close the connector (as a new task, or from a task that is already running)}; the real "
     "coroutines run on a deterministic loop with limit and limit_per_host solver-chosen. After every step: in-use plus "
     "in-progress connections within both limits, no task left waiting while a slot it could use is free, and at the end "
     "nothing counted as in use, every transport closed after close().")
@@ -181,6 +181,9 @@ def schedule(ctx, k=5, limits=None, first=(), with_timeouts=False):
             if with_timeouts and not advanced and any(rec[3] and not rec[0].done() for rec in tasks):
                 enabled.append(("advance", 5))
             enabled.append(("close",))
+            # close() awaited by a task that is already running: its synchronous part happens at once,
+            # before anything that the previous (no-tick) operation has merely scheduled
+            enabled.append(("close_now",))
         if not enabled:
             break
         op = tuple(first[i]) if i < len(first) else ctx.pick(f"op{i}", enabled)
@@ -214,6 +217,9 @@ def schedule(ctx, k=5, limits=None, first=(), with_timeouts=False):
             tasks[op[1]][0].cancel()
         elif op[0] == "close":
             ct = asyncio.Task(conn.close(), loop=loop)
+            closed = True
+        elif op[0] == "close_now":
+            ct = asyncio.Task(conn.close(), loop=loop, eager_start=True)
             closed = True
         if tick:
             loop.run_ready()
